@@ -1,2 +1,77 @@
-(* C07 - placeholder until the pipeline theorems are proved *)
-Require Import WD.Base.Prelude WD.Model.Pipeline.
+(* C07 - Monitoring never silently dies while the observer runs and the root exists.
+   Statements only. *)
+Require Import WD.Base.Prelude WD.Base.BStr WD.Model.SubEvents WD.Model.Emitter WD.Model.Fs WD.Model.Reader
+               WD.Model.DelayQueue WD.Model.Grouping WD.Model.Pipeline WD.Proofs.NoCrashProofs.
+Local Open Scope N_scope.
+
+(* For EVERY initial world, EVERY history (operations of any kind on any path - inside the tree, on
+   entries that have left it, re-using names -, reads cutting the kernel stream anywhere, emitter
+   steps, clock ticks) and EVERY set of failing inotify_add_watch calls (transient lookup failures),
+   recursive or not, with or without an event filter: the reader thread of the current code never
+   raises (the model's only exceptional outcome, [Crash], is unreachable). *)
+Theorem C07_no_crash : forall (P : pcfg),
+  c_fix_ignored (pc_reader P) = true -> c_fix_simulate (pc_reader P) = true ->
+  forall w s0 h, pinit P w = Some s0 -> exists s' obs, prun P s0 h [] = Done (s', obs).
+Proof. exact no_crash. Qed.
+Print Assumptions C07_no_crash.
+
+(* The invariant behind it, exported: at every reachable state every live kernel watch and every
+   unread kernel event carries a descriptor the reader knows. *)
+Theorem C07_descriptors_known : forall (P : pcfg),
+  c_fix_ignored (pc_reader P) = true -> c_fix_simulate (pc_reader P) = true ->
+  forall w s0 h s' obs, pinit P w = Some s0 -> prun P s0 h [] = Done (s', obs) ->
+  (forall x, In x (k_watches (p_k s')) -> In (kw_wd x) (map fst (pfw (p_r s')))) /\
+  okq (map fst (pfw (p_r s'))) (k_queue (p_k s')).
+Proof. exact descriptors_known. Qed.
+Print Assumptions C07_descriptors_known.
+
+(* Root deletion: the kernel's IN_DELETE_SELF for the watched root is translated into exactly one
+   DirDeleted(root) and a stop request; a stopped emitter produces nothing further. *)
+Theorem C07_root_deleted_event : forall full recursive root content e,
+  r_mask e = IN_DELETE_SELF -> r_path e = root ->
+  emit full recursive root content (Single e) = ([mk DirDeleted root []], true).
+Proof. exact root_deleted_event. Qed.
+Print Assumptions C07_root_deleted_event.
+
+Theorem C07_stopped_is_silent : forall P s, p_stopped s = true -> pstep P s AEmit = Done (s, OSkip).
+Proof. exact stopped_is_silent. Qed.
+Print Assumptions C07_stopped_is_silent.
+
+(* ---------------------------------------------------------------- the pinned code is refuted *)
+Definition Rt : bytes := [47; 82].            (* "/R" *)
+Definition Ot : bytes := [47; 79].            (* "/O" *)
+Definition d_ (a : bytes) : bytes := a ++ [47; 100].   (* a ++ "/d" *)
+Definition world0 : world :=
+  {| w_fs := [{| f_path := Rt; f_ino := 1; f_dir := true |}; {| f_path := Ot; f_ino := 2; f_dir := true |}];
+     w_next_ino := 3 |}.
+Definition cfg0 (fi fs_ : bool) (faults : list nat) : pcfg :=
+  {| pc_reader := {| c_recursive := true; c_mask := WATCHDOG_ALL; c_root := Rt; c_fix_ignored := fi;
+                     c_fix_movein := true; c_fix_simulate := fs_; c_faults := faults |};
+     pc_full := false; pc_filter := None; pc_delay := 4 |}.
+
+Definition run0 (P : pcfg) (h : list action) : option N :=
+  match pinit P world0 with
+  | None => None
+  | Some s0 => match prun P s0 h [] with Crash site => Some site | Done _ => None end
+  end.
+
+(* F1: mv R/d O/d; mkdir R/d; rmdir R/d; rmdir O/d  - KeyError in the IN_IGNORED clean-up *)
+Definition h_f1 : list action :=
+  [AOp (Mkdir (d_ Rt)); ARead 9; AOp (Rename (d_ Rt) (d_ Ot)); ARead 9; AOp (Mkdir (d_ Rt)); ARead 9;
+   AOp (Rmdir (d_ Rt)); ARead 9; AOp (Rmdir (d_ Ot)); ARead 9].
+Theorem C07_pinned_ignored_refuted : run0 (cfg0 false true []) h_f1 = Some SITE_IGNORED.
+Proof. vm_compute. reflexivity. Qed.
+Print Assumptions C07_pinned_ignored_refuted.
+
+(* F14: add_watch of a new sub-directory fails (suppressed) and the directory contains a file *)
+Definition h_f14 : list action :=
+  [AOp (Mkdir (d_ Rt)); AOp (Mkdir (d_ (d_ Rt))); AOp (Touch (d_ (d_ (d_ Rt)))); ARead 9].
+Theorem C07_pinned_simulate_refuted : run0 (cfg0 true false [2%nat]) h_f14 = Some SITE_SIMULATE.
+Proof. vm_compute. reflexivity. Qed.
+Print Assumptions C07_pinned_simulate_refuted.
+
+(* the same histories on the current code: no crash (non-vacuity of C07_no_crash's hypotheses) *)
+Example C07_nonvacuous :
+  run0 (cfg0 true true []) h_f1 = None /\ run0 (cfg0 true true [2%nat]) h_f14 = None /\
+  exists s0, pinit (cfg0 true true []) world0 = Some s0.
+Proof. vm_compute. repeat split. eexists. reflexivity. Qed.
